@@ -393,7 +393,7 @@ def ident(s):
     return "".join(c if c.isalnum() else "_" for c in s)
 
 
-PRELUDE = os.path.join(os.path.dirname(os.path.abspath(__file__)), "harness", "prelude_py.py")
+PRELUDE = os.environ.get("NXS_PRELUDE") or os.path.join(os.path.dirname(os.path.abspath(__file__)), "harness", "prelude_py.py")
 
 
 def src_path(rel):
